@@ -207,6 +207,22 @@ func c05Sessions(tier string) [][]string {
 	add("for i = 3 {g = i => i * 2; println(g(i))}")
 	add("func f(n){h = func(m){n = n + m; n}; h(1); h(2); n}", "f(a)")
 	add("func f(n){[n][0] + {n: n}[n] + (n => n)(n)}", "f(a)")
+	// fourth round: a register read as an operand / loop value / return value and changed later in the same expression
+	add("func f(n){n + (n = 10)}", "f(a)")
+	add("func f(n){n == (n = b)}", "f(a)")
+	add("func f(n){n + (++n)}", "f(a)")
+	add("func f(n){(if true {n}) + (n = 5)}", "f(a)")
+	add("func f(n){s = \"hello\"; s[n:(n = 3)]}", "f(k0)")
+	add("func f(n){for e = [1, 2, 3] {if e == 3 {n = 100; continue}; n}}", "f(a)")
+	add("func f(n){for (++n) < 5 {n}}", "f(k0)")
+	add("(for i = 5 {return i}) + (for j = 7 {j})")
+	add("func f(){for i = 5 {if i == k1 {return i}}}", "f() + (for j = 7 {j})")
+	add("g = 0", "func f(n){g = n; n = n + 1; g}", "println(f(a)); g")
+	add("hit = -1", "func f(){for i = 5 {if i == k1 {hit = i}}; hit}", "println(f()); hit")
+	add("func f(n, m){[n == m, n != m, n == 3, 3 == n, m == n + 0]}", "f(a, b)", "f(3, 3)")
+	add("t = 0", "for i = 3 {for j = 3 {if i == j {t = t + 1}}}", "t")
+	add("func f(n){v = [5, 6, 7]; for i = 3 {if v[i] == n {return i}}; -1}", "f(7)", "f(a)")
+	add("func f(n){K2 := n; n = n + 5; K2}", "f(a)")
 	return out
 }
 
